@@ -274,7 +274,7 @@ def run(ck, F, tier):
     def slices_of(fn, names):
         b = F.body(fn)
         # private helpers of the puncturer (e.g. one returning the iterator over the kept block positions) are expanded
-        tr = Tracer(F, r"ndarray::.*::(slice|slice_mut|assign_to|uninit)|core::slice::<impl \[T\]>::copy_from_slice|std::vec::from_elem", mode="int",
+        tr = Tracer(F, r"ndarray::.*::(slice|slice_mut|assign_to|uninit|from_elem|zeros)|core::slice::<impl \[T\]>::copy_from_slice|std::vec::from_elem", mode="int",
                     inline=lambda p: F.private_helper(p, PU))
         env = {}
         for p, nm in zip(b.params, names):
@@ -400,9 +400,10 @@ def run(ck, F, tier):
     CL2 = app("ndarray::impl_methods::<impl ndarray::ArrayBase<S, D>>::len", var("codeword"))
     srcs = [e for e in tr.events if e.callee.endswith("::slice")]
     dsts = [e for e in tr.events if e.callee.endswith("::slice_mut")]
-    outs = [e for e in tr.events if e.callee.endswith("::uninit")]
+    # the output array: allocated once with its final length (uninitialised, or pre-filled: every element is overwritten by the copy)
+    outs = [e for e in tr.events if e.callee.startswith("ndarray::") and e.callee.endswith(("::uninit", "::from_elem", "::zeros"))]
     ok = okp = False
-    why = "puncture: expected one slice / slice_mut / uninit"
+    why = "puncture: expected one slice / slice_mut / allocation of the output"
     whyp = "the block copy was not found"
     if len(srcs) == 1 and len(dsts) == 1 and len(outs) == 1:
         K, rank, okp, whyp = kept_loop(tr, srcs[0], outs[0].guards)
